@@ -35,3 +35,31 @@ Proof.
   rewrite (fin_sinks N msg mstate _ _ k live cap0 cap1 caps input _ i Hi).
   rewrite seqrun_machine, E. reflexivity.
 Qed.
+
+(* C02 with the byte-driven framer: one consumer, every schedule *)
+Theorem lossless_incremental : forall t0 (input : list N) (sync : nat -> bool) cap0 cap1 capc,
+  (1 <= cap0)%nat -> (1 <= cap1)%nat -> (1 <= capc)%nat ->
+  exists n, forall m c,
+    steps _ (nstep _ _ _ (Pipe.prog N msg mstate mstep mflush 1 (fun _ => true) sync)
+                   Pipe.sender Pipe.receiver (SkDone _ _ _)) m
+          (Pipe.init N msg mstate 1 cap0 cap1 [capc] input (new_handler t0, PEat [])) c ->
+    (m <= n)%nat /\
+    (final_config _ _ _ (Pipe.prog N msg mstate mstep mflush 1 (fun _ => true) sync)
+                  Pipe.sender Pipe.receiver (SkDone _ _ _) c ->
+     concat (map raw (sink_out N msg mstate c 0)) = input /\
+     Forall (fun x => raw x <> []) (sink_out N msg mstate c 0) /\
+     halted N msg mstate mstep mflush 1 (fun _ => true) sync c 1 /\
+     closed (nth 1 (chans c) (dchan _)) = true).
+Proof.
+  intros t0 input sync cap0 cap1 capc H0 H1 Hc.
+  destruct (handle_stream_lossless (new_handler t0) input) as (ms & h' & Hms & Hcat & Hne & _).
+  destruct (pipeline_every_schedule N msg mstate mstep mflush 1 (fun _ => true) sync
+              cap0 cap1 [capc] input (new_handler t0, PEat []) H0 H1 eq_refl (Forall_cons _ Hc (Forall_nil _))) as [n Hn].
+  exists n. intros m c Hm. destruct (Hn m c Hm) as (Hle & _ & Hfin).
+  split; [exact Hle|]. intros Hf. rewrite (Hfin Hf).
+  rewrite (fin_sinks N msg mstate _ _ 1 (fun _ => true) cap0 cap1 [capc] input _ 0 (le_n 1)).
+  rewrite seqrun_machine. pose proof (handle_stream_is_machine (new_handler t0) input) as Hmm.
+  rewrite Hms in Hmm. injection Hmm as Hmm. rewrite <- Hmm. cbn [fst].
+  split; [exact Hcat|]. split; [exact Hne|]. split; reflexivity.
+Qed.
+
